@@ -41,6 +41,34 @@ DEL = [
     ('del-call-stmt', r'^\s*(?:let _ = )?[a-z_]+(?:\.[a-z_]+)*\([^;]*\)\?;\s*$'),
 ]
 
+# second operator set (selected with a third argument "2"): off-by-one on block heights / times / lengths,
+# ignored errors, dropped operands, swapped zero/one amounts
+OPS2 = [
+    ('height+1', r'env\.block\.height(?!\s*[+\-])', 'env.block.height + 1'), ('height-1', r'env\.block\.height(?!\s*[+\-])', 'env.block.height - 1'),
+    ('block-next', r'&env\.block\b', '&BlockInfo { height: env.block.height + 1, time: env.block.time.plus_seconds(1), chain_id: env.block.chain_id.clone() }'),
+    ('drop-left-and', r'([\(\s])([a-zA-Z_!][^&|(){};]*?) && ', r'\1'), ('drop-right-and', r' && [a-zA-Z_!][^&|(){};]*?(?=[\s\)]*\{)', ''),
+    ('drop-left-or', r'([\(\s])([a-zA-Z_!][^&|(){};]*?) \|\| ', r'\1'),
+    ('len+1', r'\.len\(\)', '.len() + 1'),
+    ('amount->zero', r'\bamount\b(?=[,\)])(?<!\bamount: amount)', 'Uint128::zero()'),
+    ('sender->contract', r'&info\.sender\b', '&env.contract.address'),
+    ('unwrap_or_default->one', r'\.unwrap_or_default\(\)', '.unwrap_or_else(|| 1u8.into())'),
+    ('start_height-1', r'prop\.start_height', 'prop.start_height - 1'),
+    ('saturating->wrapping', r'\.saturating_(add|sub)\(', r'.wrapping_\1('),
+    ('checked->wrapping', r'\.checked_(add|sub|mul)\(([^()]*)\)\?', r'.wrapping_\1(\2)'),
+    ('ne-none', r'Some\(([a-z_]+)\) =>', r'Some(\1) if false =>'),
+    ('take-all', r'\.take\(limit\)', ''),
+    ('filter-drop', r'\.filter\([^()]*(?:\([^()]*\)[^()]*)*\)', ''),
+    ('clone-default', r'\.unwrap_or\(([A-Z_]+)\)', r'.unwrap_or(\1 + 1)'),
+]
+DEL2 = [
+    ('ignore-error', r'^(\s*)([a-zA-Z_][a-zA-Z_0-9\.:]*\([^;]*\))\?;\s*$'),
+]
+if len(sys.argv) > 3 and sys.argv[3] == '2':
+    OPS = OPS2
+    DEL = []
+else:
+    DEL2 = []
+
 index = []
 n = 0
 for f in files:
@@ -65,6 +93,10 @@ for f in files:
         for name, rx in DEL:
             if re.match(rx, line):
                 cands.append((name, None))
+        for name, rx in DEL2:
+            m = re.match(rx, line)
+            if m:
+                cands.append((name, f"{m.group(1)}let _ = {m.group(2)};"))
         for name, new in cands:
             key = (li, new)
             if key in seen:
